@@ -30,3 +30,10 @@ impl CheckedTimeOps for Instant {
         self.0.checked_add(duration).map(Instant)
     }
 }
+
+#[cfg(mini_moka_verif)]
+impl Instant {
+    pub(crate) fn verif_nanos_since(&self, base: clock::Instant) -> u64 {
+        self.0.saturating_duration_since(base).as_nanos() as u64
+    }
+}
